@@ -1,5 +1,6 @@
 import GBS.Props.C05
 import GBS.Lemmas.Progress
+import GBS.Lemmas.Termination
 import Mathlib.Data.List.Perm.Subperm
 import Mathlib.Data.List.Perm.Lattice
 /-!
@@ -20,8 +21,13 @@ Proved here for every molecule description and every oracle (no well-posedness h
   is a copy of a class of the certificate's set `R`" (plus "exactly one open" for chains and "a descriptor for the right
   terminal exists after every unit").
 
-`C06_partial`: (i) *termination* within a bound on the number of oracle events (positive unit masses) is not a theorem: fuel
-exhaustion counts as benign above; (ii) the older syntactic analysis `wellPosed` (Appendix A.2) is kept as the wider classifier of
+* `C06_growth_terminates` (`GBS/Lemmas/Termination.lean`): for a certified object whose repeat units weigh at least `mmin > 0` and
+  whose transition lists stay inside the repeat units, `Stochastic.generate` never stops for lack of fuel once the fuel exceeds
+  `1 + (⌊target / mmin⌋ + 1)·(maxDescs + 1)` for the targets the oracle supplies: the `while True` loop ends by itself after at
+  most `⌊target / mmin⌋ + 1` units, every capping round after at most as many steps as there are open descriptors.
+
+`C06_partial`: (i) the termination theorem is per object (its lift to `genMol` needs the bookkeeping "the remaining oracle is a
+suffix of the original" through every step, not done); in `C06_certified_generates` fuel exhaustion counts as benign; (ii) the older syntactic analysis `wellPosed` (Appendix A.2) is kept as the wider classifier of
 the check; `certify` is what the theorem covers.  The check evaluates both in the model for every generated instance, requires
 the implementation to complete on every oracle tried whenever either says so, and reports how many well-posed instances carry a
 certificate.
@@ -175,6 +181,13 @@ theorem C06_certified_generates (es : List Element) (cs : List ElemCert) (h : ce
     exact certified_generates es _ hne hc.2 fuel ω
   · cases h
 
+/-- **C06 (growth terminates)** -/
+theorem C06_growth_terminates {o : Stoch} {m : Mode} {R : List Desc} {inc : Option Desc} {mmin : Rat} (hok : StochOK o m R inc)
+    (ht : TermOK o (startClasses o inc) R mmin) (fuel : Nat) {pre : Option Mol} (hpre : PreOK pre inc) (ω : Oracle)
+    (hfuel : ∀ x, Event.draw x ∈ ω → 1 + unitsBound x mmin * (maxDescs o + 1) ≤ fuel) :
+    genStoch o fuel pre ω ≠ .error .outOfFuel :=
+  genStoch_fuel hok ht fuel hpre ω hfuel
+
 /-! non-vacuity: `C{[>][<]CC[>][<]}C`-like chain (prefix, two-descriptor unit, suffix) and an end-capped object are certified -/
 namespace C06Example
 def dL : Desc := { sym := .lt, id := none, order := .single }
@@ -194,6 +207,19 @@ example : (certify capped).isSome = true := by decide +kernel
 /-- an object whose chain end cannot be capped (no `[<]` end group) is not certified -/
 example : (certify [.stoch { left := dN, right := dN, repeats := [tRep], ends := [tEndR], hasDist := true }]).isSome = false := by
   decide +kernel
+/-- the hypotheses of `C06_growth_terminates` are met by the chain's object (handed the prefix's `>` descriptor), `mmin = 24` -/
+def chainObj : Stoch := { left := dR, right := dL, repeats := [tRep], ends := [], hasDist := true }
+def chainCert : ElemCert := guessStoch chainObj (some dR)
+example : StochOK chainObj chainCert.1 chainCert.2 (some dR) := by decide +kernel
+example : TermOK chainObj (startClasses chainObj (some dR)) chainCert.2 24 := by
+  refine ⟨by decide +kernel, ?_, ?_⟩
+  · intro tok htok
+    have : tok = tRep := by simpa [chainObj] using htok
+    subst this; decide +kernel
+  · have hnone : ∀ x ∈ startClasses chainObj (some dR) ++ chainCert.2, x.trans = none := by decide +kernel
+    intro x hx l hl
+    rw [hnone x hx] at hl
+    cases hl
 end C06Example
 
 end GBS
